@@ -26,3 +26,8 @@ package pprof
 //@   requires h != nil && w != nil && r != nil && r.URL != nil && h.Next != nil && h.Mux != nil
 //@   modifies ghost:nextCalls, ghost:nextRet, ghost:muxCalls
 //@   ensures [answers_itself_or_passes_on_once] (nextCalls == old(nextCalls) && muxCalls == old(muxCalls) + 1 && result0 == 0 && result1 == nil) || (nextCalls == old(nextCalls) + 1 && muxCalls == old(muxCalls) && result0 == nextRet)
+
+//@ unit constructors_sweep props=C11 nilchecks=on nonnil_params=on filter=`pprof\.NewMux$`
+//@ // constructors and helpers that this directive's setup calls but that live outside setup.go: the same safety sweep
+//@ // (index, slice, division, nil-map store, nil dereference, explicit panic) as for the setup code itself
+//@ use @verif/specs/stdlib.spec:stdlib
